@@ -881,6 +881,14 @@ def new_server(sc, fresh_factory=True, **kw):
     return s
 
 
+def peer_comes_and_goes():
+    """another server object of the application is set up and cleaned up: cleanup() takes the frame registry both share down with it"""
+    t = CLK.ticks
+    peer = new_server({'retries': 0, 'delay': 125, 'chunk': 128, 'timeout': 256, 'backend': 'base', 'reqs': []}, fresh_factory=False)
+    peer.cleanup()
+    CLK.ticks = t
+
+
 def settings_at(sc, i):
     """(retries, delay) in force for request i: the scenario's, or what the application set between two requests"""
     retries, delay = sc['retries'], sc['delay']
@@ -916,6 +924,8 @@ def run_sequence(sc):
             k = i % len(other.link.sc['reqs'])
             other.link.begin(k)
             call(other, other.link.sc['reqs'][k]['kind'], req_of(other.link.sc['reqs'][k]))
+        if sc.get('peergone') == i:
+            peer_comes_and_goes()
         s.link.arrive()
         starts.append((CLK.ticks, list(s.link.pending), len(s.sent), len(s.rx_trace), len(s.calls), bytes(s.link.buf) if keeps else b'',
                        s.link.data_reads))
@@ -949,6 +959,9 @@ def run_alone(sc, i, start):
     tick, pending = start[0], start[1]
     CLK.ticks = tick
     s = new_server(sc, req_index=i, pending=pending, buffered=start[5])
+    if sc.get('peergone') is not None and i >= sc['peergone']:
+        peer_comes_and_goes()               # (what another object of the application did to the shared registry is no earlier request)
+        CLK.ticks = tick
     rt, dl = settings_at(sc, i)
     s.set_retries(rt)
     s.set_retry_delay(dl)
@@ -969,8 +982,8 @@ def real_seqs(line):
 def model_line_seqs(line):
     """the recorded back-end trace as the model's environment"""
     sc = json.loads(line.split('|', 1)[1])
-    if sc.get('boom') or sc.get('txtime') or sc.get('backoff') or any(r.get('set') for r in sc['reqs']):
-        return 'no-model'              # (the model's transmissions take no time, its settings do not change under way)
+    if sc.get('boom') or sc.get('txtime') or sc.get('backoff') or any(r.get('set') for r in sc['reqs']) or sc.get('peergone') is not None:
+        return 'no-model'              # (the model's transmissions take no time, its settings do not change under way, its registry is its own)
     s, outs, starts, per_req = run_sequence(sc)
     return '|'.join(['seq', str(sc['retries']), str(sc['delay']), ','.join('1' if t else '0' for t in s.tx_trace),
                      ','.join(f'{dt}:{d.hex()}' for dt, d in s.rx_trace),
@@ -1254,6 +1267,15 @@ def gen_sequence(rng):
                         # a late or duplicate answer to an EARLIER request of this sequence
                         ec, ei, em = rng.choice(earlier)
                         pieces.append(frame(ec, ei, rand_payload(rng, em + rng.choice([0, 2]))) if rng.random() < 0.7 else frame(5, 1, [ec, ei]))
+                    elif u < 0.2:
+                        # a long foreign frame (sensor data, a log dump) whose payload happens to hold what would be an answer: its length
+                        # on or next to a byte boundary of the length field
+                        inner = answer_frames(rng, kind if kind != 'faf' else 'set', cls_, id_, minlen, echo)
+                        L = rng.choice([256, 256, 512, 768, 255, 257, 300])
+                        at = rng.randrange(2, max(3, L - len(inner)))
+                        body = bytearray(rng.choice([0, 0x11, 0xff]) for _ in range(L))
+                        body[at:at + len(inner)] = inner
+                        pieces.append(frame(0x10, 2, bytes(body[:L])))
                     elif u < 0.82:
                         pieces.append(answer_frames(rng, kind if kind != 'faf' else 'set', cls_, id_, minlen, echo))
                     else:
@@ -1313,6 +1335,10 @@ def gen_sequence(rng):
             again['tx'] = [True for _ in again['tx']] + [True, True, True]
             reqs.insert(j, again)
         reqs[j]['set'] = st
+    if rng.random() < 0.06 and not sc.get('bystander'):
+        # another server object of the application is set up and cleaned up before one of the requests: the registry they share is gone,
+        # what arrives cannot be decoded - and every request still ends within its bound
+        sc['peergone'] = rng.randrange(len(reqs))
     if rng.random() < 0.15:
         # another frame leaves through fire_and_forget() while a request of the sequence is waiting; the receiver may well
         # acknowledge THAT frame (an ACK naming another request)
@@ -1543,6 +1569,13 @@ def gen_level_items(rng, count):
     on the wire is its truth value), the frame sent once or several times"""
     from comp_codec import published_keys
     keys = published_keys()
+    # requests whose payload length sits on a byte boundary of the length field: 4 + 5a + 6b + 12c bytes from a 8-bit, b 16-bit, c 64-bit items
+    for a, b, c in [(49, 1, 0), (48, 2, 0), (4, 1, 40), (3, 2, 40), (1, 0, 63), (0, 0, 64), (50, 0, 0)]:
+        items = [f'{rng.randrange(256)},{rng.randrange(4096)},8,0,{rng.randrange(256)}' for _ in range(a)] + \
+                [f'{rng.randrange(256)},{rng.randrange(4096)},16,0,{rng.randrange(65536)}' for _ in range(b)] + \
+                [f'{rng.randrange(256)},{rng.randrange(4096)},64,0,{rng.randrange(1 << 64)}' for _ in range(c)]
+        rng.shuffle(items)
+        yield '|'.join(['level', 'set', 'ITEMS', ';'.join(items), '', '1', '1', '1,1', f'5:{frame(5, 1, [6, 0x8a]).hex()}', '1'])
     for k in range(count):
         items = []
         for _ in range(rng.randrange(1, 4)):
@@ -1950,9 +1983,11 @@ def chunk_bytes(c):
     if c == 'U':
         return b'\xff\xfe\xb5b'
     lines = []
-    for l in (c.split(';') if c else []):
+    for n, l in enumerate(c.split(';') if c else []):
         if l == 'X':
-            lines.append('$GPRMC,1*2C')
+            # something that is no JSON: an NMEA sentence - or an empty line, or one of blanks only (which one depends on the chunk, and
+            # repeats on a replay)
+            lines.append(['$GPRMC,1*2C', '$GPRMC,1*2C', '$GPRMC,1*2C', '', '   ', '\t', '\r'][(zlib.crc32(c.encode()) + n) % 7])
         elif l == 'D':
             lines.append('[' * 100000)
         elif l == 'B':                       # a number json.loads refuses to convert (more than 4300 digits)
